@@ -105,7 +105,16 @@ SETS = _mk_classes()
 ROOT = {'S1': SETS['S1'][0], 'S2': SETS['S2'][0], 'S3': SETS['S3'][0], 'SX': SETS['SX'][0]}
 DOCS = collections.OrderedDict([
     ('v1', '{x: 1}'), ('v2', '{x: a}'), ('tA', '!A {x: 1}'), ('tB', '!B {x: 1, z: 2}'), ('bad', '{q: 1}'), ('err', '{x: 1'),
+    ('l1', '[{x: 1}]'), ('d1', '{k: 1}'),
 ])
+# load functions: name -> (class set, result type); several share a class set (or have none) and differ in the result type
+LOADERS = collections.OrderedDict([
+    ('S1', ('S1', None)), ('S2', ('S2', None)), ('S3', ('S3', None)), ('ANY', (None, None)),
+    ('S1L', ('S1', 'list')), ('S1O', ('S1', 'opt')), ('DICT', (None, 'dict')), ('STRS', (None, 'strs')),
+])
+LOADER_DOCS = {'S1': ['v1', 'v2', 'tA', 'tB', 'bad', 'err'], 'S2': ['v1', 'v2', 'tA', 'tB', 'bad', 'err'],
+               'S3': ['v1', 'v2', 'tA', 'tB', 'bad', 'err'], 'ANY': ['v1', 'v2', 'tA', 'tB', 'bad', 'err'],
+               'S1L': ['l1', 'v1', 'err'], 'S1O': ['v1', 'l1', 'bad'], 'DICT': ['d1', 'v1', 'l1'], 'STRS': ['l1', 'd1', 'v2']}
 
 
 def value(name):
@@ -117,14 +126,18 @@ def value(name):
         return SETS['S3'][0](3)
     if name == 'b3':
         return SETS['S3'][1](1, 2)
+    if name == 'dup3':
+        # one object referenced twice: fine for YAML (anchor), refused midway by the JSON emitter (RuntimeError)
+        o = SETS['S3'][1](1, 2)
+        return {'k': [o, {'n': o}]}
     raise KeyError(name)
 
 
-VALUES = {'S1': ['a1', 'a2'], 'S2': ['a2', 'a1'], 'S3': ['a3', 'b3', 'a1']}
+VALUES = {'S1': ['a1', 'a2'], 'S2': ['a2', 'a1'], 'S3': ['a3', 'b3', 'a1', 'dup3']}
 
-MK_OPS = [('mkL', s) for s in ('S1', 'S2', 'S3', 'ANY')] + [('mkD', s) for s in ('S1', 'S2', 'S3')] + \
+MK_OPS = [('mkL', s) for s in LOADERS] + [('mkD', s) for s in ('S1', 'S2', 'S3')] + \
          [('mkJ', s) for s in ('S1', 'S2', 'S3')]
-CALL_OPS = [('L', s, d) for s in ('S1', 'S2', 'S3', 'ANY') for d in DOCS] + \
+CALL_OPS = [('L', s, d) for s in LOADERS for d in LOADER_DOCS[s]] + \
            [(k, s, v) for k in ('D', 'J') for s in ('S1', 'S2', 'S3') for v in VALUES[s]]
 ALL_OPS = MK_OPS + CALL_OPS
 
@@ -162,8 +175,15 @@ def apply_op(slots, op):
     k = op[0]
     if k == 'mkL':
         s = op[1]
+        cset, shape = LOADERS[s]
         if s == 'ANY':
             slots[('L', s)] = yatiml.load_function()
+        elif cset is None:
+            slots[('L', s)] = yatiml.load_function(Dict[str, int] if shape == 'dict' else List[str])
+        elif shape == 'list':
+            slots[('L', s)] = yatiml.load_function(List[ROOT[cset]], *SETS[cset])
+        elif shape == 'opt':
+            slots[('L', s)] = yatiml.load_function(Optional[ROOT[cset]], *SETS[cset])
         else:
             slots[('L', s)] = yatiml.load_function(ROOT[s], *SETS[s][1:])
         return 'created'
